@@ -783,7 +783,7 @@ def main(tier, replay=None):
                 "with_<alias>, with_<target>; distinct = distinct (host, configuration, initial tree, operations); every case "
                 "has >= 1 operation and is judged after every operation",
         "samples": [to_json(cases[j]) for j in (len(corpus), len(corpus) + len(exh) + 1, len(cases) - 1)],
-        "exhaustive": {"scope": f"all {len(EXH_OPS)}^{exh_len} sequences of length {exh_len} over read/write/delete alias, "
+        "exhaustive": False, "exhaustive_subscope": {"scope": f"all {len(EXH_OPS)}^{exh_len} sequences of length {exh_len} over read/write/delete alias, "
                                 f"read/write/delete target, copy (deepcopy or with_<alias>), for {exh_cfgs} seeded core "
                                 "configurations; everything else is sampled", "cases": len(exh)},
     }
